@@ -96,15 +96,18 @@ PROPS = {
         "assumptions": ["passwords are NUL-free (C-string / HMAC zero-padding equivalences excluded, as the property states)"],
     },
     "C03": {
-        "suites": ["kdf"],
+        "suites": ["kdf", "xcrypt"],
+        "fail_kinds": ["their-hash-rejected", "our-hash-rejected", "their-mismatch-accepted", "no-reference"],
         "level": "proof",
         "technique": "Lean 4 proof (code-shaped KDF skeleton = reference written from the published algorithm, for all inputs and all hash functions; loop closed forms by induction) + Go/Lean key correspondence on all ten schemes",
         "claim": "Kernel-checked for ALL passwords, salts, round counts and ALL hash functions: md5-crypt and SHA-crypt skeletons equal references written from PHK's and Drepper's descriptions (cycleTake, binary digits LSB-first, 16+A[0] repetitions, the i%2/i%3/i%7 round pattern); "
                  "final permutation tables (regenerated) are permutations; little-endian base64 digest encoding = bit-level spec (C16). The hand-written skeletons and the executable Lean primitives are tied to Go by key-for-key comparison on every boundary password length for all ten schemes.",
-        "note": "Partial: equality with libxcrypt itself is not yet sampled by a dedicated suite in this revision (planned `xcrypt` suite); DES/bcrypt/NT/Sun-MD5/sha1 have no separate published-spec reference in Lean yet — their models are tied to Go only.",
+        "note": "Partial: DES/bcrypt/NT/Sun-MD5/sha1 have no separate published-spec reference in Lean — their models are tied to Go by correspondence, and Go is tied to the system's libxcrypt 4.4 (cgo, crypt_r) in both directions on the shared domain by the xcrypt suite (a test, labelled as such). Known finding F11: libxcrypt's zero-rounds Sun MD5 form \"$md5$salt$$digest\" is rejected here.",
         "rule": "kdf: per scheme passwords of 30 boundary lengths (0..257 around 8/16/32/56/64/72/128/254/256) plus random lengths ≤ 300, 8-bit content, every legal salt length class, rounds dense near the minimum, all prefix/option variants; "
-                "Go Key vs Lean model (hand-written skeleton over Lean primitives), results compared byte for byte; non-trivial/distinct = distinct (scheme, password length, salt length, rounds)",
-        "trusted": COMMON_TRUST + ["the hash/cipher primitives are parameters of the theorems; their Lean copies are validated differentially"],
+                "Go Key vs Lean model (hand-written skeleton over Lean primitives), results compared byte for byte; "
+                "xcrypt: 9 schemes × NUL-free 8-bit passwords at 5..25 boundary lengths × 2 (quick) / 30 (thorough) repetitions; there→here: settings built over every legal salt length and rounds near the minimum, hashed by libxcrypt, verified by <scheme>.Check and crypt.Check (and by the Lean model), near-miss password refused; "
+                "here→there: NewHash output re-derived by libxcrypt byte for byte; excluded as outside the shared domain: $2$, Argon2, DES passwords > 8, NT hash of non-ASCII, Sun MD5 empty salts / salts > 8 / the \"$md5$rounds=0$\" spelling; non-trivial/distinct = distinct (scheme, password length, salt length, rounds)",
+        "trusted": COMMON_TRUST + ["the hash/cipher primitives are parameters of the theorems; their Lean copies are validated differentially", "the system's libxcrypt 4.4.33 as the reference crypt(3)"],
         "assumptions": [],
     },
     "C05": {
@@ -224,7 +227,6 @@ PROPS = {
     "C13": {
         "suites": ["purity"],
         "level": "proof",
-        "fail_kinds": ["argument-modified", "result-aliased", "nondeterministic", "slice-effect"],
         "technique": "Lean 4: flow-insensitive points-to analysis decided by the kernel (`decide +kernel`) on the slice-effect IR of every Key regenerated from the current source with module-internal callees inlined (no store targets an array reachable from an argument or a package variable; every returned slice is rooted in memory allocated by the call) "
                      "+ sentinel-buffer correspondence on Go; determinism by key-for-key agreement with the Lean model, a function of its arguments",
         "claim": "Kernel-checked on the IR regenerated from the current source, for all ten Key functions and everything they call inside this module: under a flow-insensitive points-to over-approximation (every statement may run, any number of times, in any order) no store (x[i]=, copy, PutUintNN, Encode(dst,…), append into spare capacity, h.Sum(b), cipher.Encrypt(dst,…)) can target an array that may belong to an argument or to a package-level variable, "
